@@ -3,8 +3,30 @@ import Driver.Proto
 namespace Driver.C06
 open ArrModel Driver
 
+/-- one step of a chain: `transpose=none`, `transpose=1,0`, `moveaxis=0,1=1,0`, `rollaxis=1=none`, `swapaxes=0=-1`
+(the very model definitions, applied one after the other; the first error / panic ends the chain) -/
+def step (a : Arr Int) (s : String) : Option (Res (Arr Int)) :=
+  match s.splitOn "=" with
+  | ["transpose", ax] => do let ax ← parseOpt? parseIntList? ax; some (a.transpose 0 ax)
+  | ["moveaxis", s, d] => do let s ← parseIntList? s; let d ← parseIntList? d; some (a.moveaxis 0 s d)
+  | ["rollaxis", ax, st] => do let ax ← parseInt? ax; let st ← parseOpt? parseInt? st; some (a.rollaxis 0 ax st)
+  | ["swapaxes", i, j] => do let i ← parseInt? i; let j ← parseInt? j; some (a.swapaxes 0 i j)
+  | _ => none
+
+def chain (a : Arr Int) : List String → Option (Res (Arr Int))
+  | [] => some (.ok a)
+  | s :: rest => do
+    match ← step a s with
+    | .ok b => chain b rest
+    | .err e => some (.err e)
+    | .panic => some .panic
+
 def handle (op : String) (args : List String) : Option String :=
   match op, args with
+  | "chain", [a, steps] => do
+    let a ← parseArr? a
+    let r ← chain a (if steps == "-" then [] else steps.splitOn "|")
+    some (showRes showArr r)
   | "transpose", [a, ax] => do
     let a ← parseArr? a; let ax ← parseOpt? parseIntList? ax
     some (showRes showArr (a.transpose 0 ax))
